@@ -159,7 +159,12 @@ def quote(it, a, k):
         if "/" in safe:
             A(z3.Contains(r, S("/")) == z3.Contains(s.t, S("/")))
             A(z3.PrefixOf(S("/"), r) == z3.PrefixOf(S("/"), s.t))
+            A(z3.PrefixOf(S("//"), r) == z3.PrefixOf(S("//"), s.t))
             A(z3.SuffixOf(S("/"), r) == z3.SuffixOf(S("/"), s.t))
+        # reserved characters never survive quoting (stated explicitly: cheap for the solvers)
+        for ch in "?#; ":
+            if ch not in safe:
+                A(z3.Not(z3.Contains(r, S(ch))))
         return r
 
     return VStr(_memo(it, key, build))
